@@ -60,7 +60,7 @@ Theorem C05_honest_new_view_is_accepted :
   c_inst cr = c_inst cs -> t_cm (tc_t xr) = t_cm (tc_t xa) -> t_h (tc_t xr) = t_h (tc_t xa) ->
   tc_v xr <= v -> get_pp (tc_t xr) v = None ->
   exists to ty i h vs s pp pps b, o = OSend to (MNV ty i h v vs s pp pps b) /\
-    (((forall vt, In vt vs -> v_proof vt = None) -> ctx_ok wm' shut' (h, v) = true /\ validProposal (c_me cr) h b (r_hash pp) = true) ->
+    (((forall vt, In vt vs -> v_proof vt = None) -> ctx_ok wm' shut' (t_h (tc_t xr), tc_v xr) = true /\ validProposal (c_me cr) h b (r_hash pp) = true) ->
      accepted cr (handle_nv cr wm' shut' xr ty i h v vs s pp pps b) v (r_hash pp)).
 Proof. exact honest_new_view_is_accepted. Qed.
 Print Assumptions C05_honest_new_view_is_accepted.
